@@ -297,7 +297,8 @@ class CatLinearOperator(LinearOperator):
 
         # Process the list
         if len(res_list) == 1:
-            return res_list[0].to(self.output_device)
+            res = res_list[0]
+            return res if self.output_device is None else res.to(self.output_device)
         else:
             res = self.__class__(*res_list, dim=updated_cat_dim, output_device=self.output_device)
             return res
